@@ -252,9 +252,12 @@ def decorate(rng, prog):
                 part["special_params"] = {"ExecC": "MyMsg" if prog["custom"]["msg"] else "Empty"}
     if len(ifaces) >= 2 and rng.random() < 0.35:
         # two interfaces whose module paths end in the same identifier (`a_ns::common`, `b_ns::common`), told apart with `as`
+        same_trait = rng.random() < 0.5
         for part in ifaces[:2]:
             part["module"] = part["module"] + "_ns::common"
             part["as_name"] = part["variant"]
+            if same_trait:
+                part["trait"] = "Common"   # v1::common::Common and v2::common::Common: also the generated message types share their names
     if rng.random() < 0.4:
         k = rng.choice([1, 2, 3])
         items = []
